@@ -40,6 +40,13 @@ type schedWorld struct {
 	inflight  map[string]map[uint64]bool
 	lockSplit bool
 	notReady  bool // the stage's ready flag has been cleared at least once (Recover)
+	// a goroutine that has fetched a reference to a per-file lock and not yet taken it; whether it
+	// has touched the file system since. In the code as it stands nothing lies between the two
+	// (`lock := s.getPathLock(path); lock.Lock()`): the recorded finding path-lock-dropped-in-use is
+	// a lock replaced in THAT window. A reference carried across file operations is another matter.
+	refHeld   map[uint64]string
+	refFsOps  map[uint64]bool
+	wideSplit bool
 }
 
 func newSchedWorld(files []*sFile) *schedWorld { return newSchedWorldPre(files, nil) }
@@ -54,17 +61,33 @@ func newSchedWorldPre(files []*sFile, pre func(w *rw)) *schedWorld {
 		sw.files[f.Key] = f
 	}
 	sw.inflight = map[string]map[uint64]bool{}
+	sw.refHeld, sw.refFsOps = map[uint64]string{}, map[uint64]bool{}
 	vrt.OnNotify = func(what, arg string) {
 		sw.hmu.Lock()
 		defer sw.hmu.Unlock()
 		if what == "canReceive" && arg == "false" {
 			sw.notReady = true // Recover has closed the gate
 		}
+		if what == "pathLockRef" {
+			sw.refHeld[vrt.Goid()] = strings.TrimPrefix(arg, sw.w.stageDir+"/")
+			delete(sw.refFsOps, vrt.Goid())
+			return
+		}
+		if what == "pathLockTaken" {
+			delete(sw.refHeld, vrt.Goid())
+			delete(sw.refFsOps, vrt.Goid())
+			return
+		}
 		if what != "delPathLock" {
 			return
 		}
 		name := strings.TrimPrefix(arg, sw.w.stageDir+"/")
 		me := vrt.Goid()
+		for g, n := range sw.refHeld {
+			if g != me && n == name && sw.refFsOps[g] {
+				sw.wideSplit = true
+			}
+		}
 		if dbgNotify {
 			fmt.Println("NOTIFY", what, name, me, sw.inflight)
 		}
@@ -80,6 +103,11 @@ func newSchedWorldPre(files []*sFile, pre func(w *rw)) *schedWorld {
 	sw.w.start() // before the scheduler is active: the handler goroutines start natively
 	vos.Hook = func(op, p1, p2 string) error {
 		if strings.HasPrefix(p1, root+"/") {
+			sw.hmu.Lock()
+			if _, ok := sw.refHeld[vrt.Goid()]; ok {
+				sw.refFsOps[vrt.Goid()] = true
+			}
+			sw.hmu.Unlock()
 			vrt.Point(vrt.Op{Kind: "fs:" + op, Obj: strings.TrimPrefix(p1, root+"/")})
 		}
 		return nil
@@ -136,6 +164,9 @@ func (sw *schedWorld) finish() (final []string, log []string, stage []vh.Entry) 
 
 // class names the known finding an observed violation belongs to, if any.
 func (sw *schedWorld) class() string {
+	if sw.wideSplit {
+		return "" // not the recorded window: a lock reference was carried across file operations
+	}
 	if sw.lockSplit {
 		return "path-lock-dropped-in-use"
 	}
